@@ -40,6 +40,15 @@ CHECKS = {
  "C15": ("exploration", "metamorphic monitor (events vs equivalent procedure calls on the same evaluator) plus reference trace monitor; handler entry counting",
          "Random handler programs and event sequences (length <= 30, hostile payloads) are delivered through HandleEvent after Eval; the cumulative trace must equal that of the program with handlers rewritten as procedures and events as calls, and that of the reference interpreter; one entry marker per delivered event; locals start afresh.",
          "Events without a declared handler are not delivered (as pkg/wasm does).", "DESIGN.md §7 C15"),
+ "C14": ("fault_enumeration", "stop-point enumeration against the uninterrupted run (metamorphic) + closed-form yield-density rules on the Yielder log and the verif step hook",
+         "For generated terminating and endless programs the uninterrupted run is recorded with yield marks; the program is then re-run with the stop flag raised inside every yield (up to 300 / 3000 per program) and inside every platform effect; no yield may follow, effects must be the uninterrupted prefix plus at most the step in flight, the result must be 'stopped'. Density: yields between segment markers >= known iterations + calls; never more than 64 evaluation steps without a yield.",
+         "Stop flag raised only from Yield or a platform call (single thread, as in the browser); loops inside built-ins are out of reach (see C02/D14).", "DESIGN.md §7 C14"),
+ "C16": ("translation_validation", "differential monitor: VM final globals (verif hook, by symbol name, with map key order) vs evaluator final globals, error-class correspondence; compile-time error required for unsupported constructs",
+         "Random programs inside the compiler's subset (every statement feeds a global) run on both implementations; all top-level variables must agree or both must fail with the corresponding error class; programs with one unsupported construct must be rejected by the compiler.",
+         "Evaluator is the reference; regions of open findings D23a,b,d,e are fenced off and re-run by probes.", "DESIGN.md §7 C16"),
+ "C17": ("exploration", "static bytecode verifier + VM trace monitor (sp vs static height, shadow-slot ownership) + symbol-table history model + 16-bit limit programs",
+         "Every emitted bytecode program (random subset programs, 6-deep loop nests with breaks and block locals, 10^4-iteration loops, programs around every 16-bit limit) is decoded and abstractly interpreted, then executed under the trace hook; random Push/Pop/Define/Resolve histories are checked against a scope-stack model.",
+         "Closed-form; ErrStackOverflow of the 2048-slot VM stack is a graceful error, not a crash.", "DESIGN.md §7 C17"),
  "C06": ("exploration", "metamorphic round-trip monitor: tokens, re-acceptance, tree and recorded behaviour of Format(s) vs s; evy fmt vs library",
          "For thousands of accepted sources (corpus, decorated with comments/blank lines/tabs, accepted token mutants, generated programs) compares the non-whitespace token sequence, the syntax tree and the recorded Platform trace of the formatted text with those of the source, and the real evy fmt with Program.Format.",
          "Tokens compared by (type,value); behaviour compared under fixed inputs/seed with positions stripped; lexer positions trusted only as far as C03 checks them.", "DESIGN.md §7 C06"),
